@@ -211,12 +211,20 @@ def gen_path(rng, odd=False):
     return "/" + "/".join(segs)
 
 
+ERROR_LINES = ["org.javarosa.xform.parse.XFormParseException: XForm Parse Error: {p} is not a valid node",
+               ">> XForm Parse Error: problem with the bind for {p}", "Error: Problem found at nodeset: {p}",
+               "XPath evaluation: Error: type mismatch in {p} and {q}", "Validation Error: Error: cyclic reference {p} -> {q} -> {p}"]
+
+
 def gen_line(rng, p_odd=0.0):
     r = rng.random()
     if r < 0.18:
         return rng.choice(FRAMES)
+    if r < 0.26:
+        # JavaRosa's own "... Error: ..." lines, citing instance paths
+        return rng.choice(ERROR_LINES).format(p=gen_path(rng, odd=rng.random() < p_odd), q=gen_path(rng))
     parts = []
-    if r < 0.38:
+    if r < 0.45:
         parts.append(rng.choice(EXC) + rng.choice(["", "", ": "]))
     for _ in range(rng.randint(0, 5)):
         x = rng.random()
@@ -467,6 +475,12 @@ def run_case(ctx, sb, forms, fid, outcome, mode, pre):
             ctx.count("watchdog-race:kill-flag-read-before-set")  # benign race of util.py: both are 'accept with a warning'
         elif got != want_popen:
             ctx.fail(Failure("popen-mapping", f"run_popen_with_timeout returned {got}, the process did {want_popen}", case))
+        p0 = obs["popen"][0]
+        if outcome["kind"] in ("exit", "kill") and (p0["wall_s"] > c18_env.RUN_BOUND or p0["hard_killed"]):
+            ctx.count("validator-run-blocked")
+            ctx.fail(Failure("validator-run-blocked", f"the stand-in validator returns at once, yet the validator run took {p0['wall_s']} s"
+                             f"{' and had to be killed by the harness' if p0['hard_killed'] else ''} "
+                             f"(stderr {len(want_popen['stderr'])} chars, stdout {outcome.get('stdout_bytes', 0)} bytes)", case))
         if len(obs["popen"]) != 1 or obs["popen"][0]["asked_timeout"] <= 0:
             ctx.fail(Failure("popen-mapping", "validator invoked more than once or without a watchdog", case))
         env = got
@@ -650,6 +664,15 @@ def outcomes(ctx, rng, factor):
     outs.append({"tag": "exit>0-latin1", "kind": "exit", "code": 1, "stderr_hex": "café /data/g/q1\n".encode("latin-1").hex()})
     outs.append({"tag": "jar-unreadable", "kind": "exit", "code": 1, "stderr": JARFILE + " /opt/x/pyxform/validators/odk_validate/bin/ODK_Validate.jar\n"})
     outs.append({"tag": "jar-corrupt", "kind": "exit", "code": 1, "stderr": "Error: Invalid or corrupt jarfile /opt/x/pyxform/validators/odk_validate/bin/ODK_Validate.jar\n"})
+    # validator output SIZE as an input dimension: around the pipe capacity and well beyond, on stderr and on stdout
+    sizes = ctx.pick([65537, 1 << 20], [4096, 65535, 65536, 65537, 200000, 1 << 20])
+    for n in sizes:
+        line = "Error: problem at " + "/data/g/q1 \n"
+        big = (line * (n // len(line) + 1))[:n]
+        for code in (0, 1):
+            outs.append({"tag": "big-stderr", "kind": "exit", "code": code, "stderr": big, "big": True, "few_forms": True})
+            outs.append({"tag": "big-stdout", "kind": "exit", "code": code, "stderr": "note /data/g/q1\n", "stdout_bytes": n, "big": True,
+                         "few_forms": True})
     for sig in ctx.pick([9, 15], [9, 15, 6, 11]):
         outs.append({"tag": "killed", "kind": "kill", "code": sig, "stderr": rng.choice(["", "partial /data/g/q1"]), "few_forms": ctx.quick() and sig != 9})
     outs.append({"tag": "timeout", "kind": "sleep"})
@@ -719,7 +742,16 @@ def explore(ctx, factor, bs):
                     continue
                 if limited and outcome["tag"] not in ("exit0-silent", "exit0-stderr", "exit>0-named-paths", "java-absent", "killed"):
                     continue  # validator never reached (failed write, conversion error) / same path as `warn`: a few environments suffice
+                if outcome.get("big") and ctx.quick() and fid != "plain":
+                    continue
+                if outcome.get("big") and ctx.dist.get("validator-run-blocked", 0) >= 3:
+                    continue  # each blocked run costs seconds: three concrete inputs are enough
                 for mode in modes(rng):
+                    if outcome.get("big") and not (mode["kind"] == "lib" and mode["validate"] or
+                                                   (mode["kind"] == "cli" and not mode.get("skip") and not mode.get("odk"))):
+                        continue
+                    if outcome.get("big") and ctx.quick() and mode["kind"] == "cli" and not mode.get("json"):
+                        continue
                     if f.get("lib_only"):
                         if mode["kind"] != "lib":
                             continue
